@@ -10,7 +10,8 @@ from cxxheaderparser import types as T
 
 TECHNIQUE = 'Lean 4: contiguity theorems for the value collectors (result = given tokens ++ exactly the tokens taken from the stream, in order; stream left right after them) for every state, kernel-decided slicing flags regenerated from the call sites; stop positions decided by correspondence and an expression-grammar oracle per position'
 LEAN_TARGET = "CxxModel.Props.C14"
-THEOREMS = ["Cxx.C14_balanced_contiguous", "Cxx.C14_value_until_contiguous", "Cxx.C14_create_value", "Cxx.C14_inner", "Cxx.C14_value_sites", "Cxx.tokLoop_contiguous", "Cxx.interp_bind"]
+THEOREMS = ["Cxx.C14_balanced_contiguous", "Cxx.C14_value_until_contiguous", "Cxx.C14_value_stops", "Cxx.C14_create_value", "Cxx.C14_inner", "Cxx.C14_value_sites",
+            "Cxx.tokLoop_contiguous", "Cxx.tokLoop_complete", "Cxx.consumeBalanced_region", "Cxx.interp_bind"]
 ANCHORS = ["parser.py:CxxParser._consume_value_until", "parser.py:CxxParser._consume_balanced_tokens", "parser.py:CxxParser._create_value",
            "parser.py:CxxParser._parse_fn_end", "parser.py:CxxParser._parse_method_end", "parser.py:CxxParser._parse_array_type",
            "parser.py:CxxParser._parse_pqname_decltype_specifier", "parser.py:CxxParser._parse_requires", "parser.py:CxxParser._parse_requires_segment",
@@ -31,7 +32,8 @@ CARRIED_BY = {
     "`[1:-1]` removes exactly the two delimiters": "theorem C14_inner",
     "Value construction keeps every token's text and type": "theorem C14_create_value",
     "which delimiters each position strips": "theorems C14_value_sites / value_sites_conform on flags regenerated from the call sites",
-    "where a value stops (terminator sets, `<` heuristic) and the per-position results": "oracle `positions` + correspondence `parse[values]` (not proof)",
+    "a value whose top level holds no terminator and no unclosed bracket (terminators inside properly nested brackets allowed) is collected up to, not including, the first top-level terminator": "theorem C14_value_stops (every such value, every terminator set, every stream and parser state)",
+    "which terminator set each position uses, values outside that shape (`<` heuristic), and the per-position results": "oracle `positions` + correspondence `parse[values]` (not proof)",
 }
 ASSUMPTIONS = ["AngleClosed: a `<` at the top level of a value that is not closed by `>` inside the value is the listed finding C14-toplevel-less-than",
                "requires-clauses are written as parenthesised expressions (C14-requires-dblcolon lists the qualified-name defect)"]
